@@ -541,7 +541,22 @@ func init() {
 	checks["C02"] = func(p *Program, r *Report) {
 		checkWriterTypestate(p, r)
 		checkSeekTables(p, r)
-		r.Engines = []string{"pathsim", "typestate", "dtable"}
+		// the answer of a seek is a function of the table and the key only: nothing on
+		// the read path may write state a later seek on the same Reader could observe
+		r2 := newReport(r.Property, r.Tier, r.Seed)
+		checkEffects(p, r2)
+		for k, o := range r2.Obl {
+			if o.Rule != "E1" && o.Rule != "E3" {
+				continue
+			}
+			key := strings.TrimPrefix(strings.TrimPrefix(k, "E1 / "), "E3 / ")
+			if v, bad := r2.Viol[k]; bad {
+				r.violate("SEEK-STATELESS", key, v.Where, "a seek can depend on the Reader's history: "+v.Message, nil)
+			} else {
+				r.ok("SEEK-STATELESS", key, o.Note)
+			}
+		}
+		r.Engines = []string{"pathsim", "typestate", "dtable", "effects"}
 		r.Explanation = "Index construction typestate in the writer (path-sensitive simulation with the block writer modelled as nil / empty / non-empty and flushBlock, finishSection replaced at their call sites by summaries that are verified against their bodies in the same run): the current block writer is replaced only when it is nil, empty or flushed (no index block is lost), every successful exit of a section leaves the pending index empty and no unflushed block (no entry leaks into the next section), the index entry of a block records the offset before it is advanced. Decision tables of the reader's seek: in-block scan stops exactly at the first key not smaller and returns the position before it, restart predicate, block skipping of the linear seek, index descent (return a child only of the wanted type and positioned, descend only into index blocks), and only the table iterator advances its own block iterator (reads roll over to the next block)."
 		r.NotDecided = []string{"that seek followed by scan equals the scan suffix for a given table (needs the arithmetic of block offsets, padding and restart positions)", "contents of multi-level indexes", "restart offset arithmetic"}
 		r.Assumptions = []string{"blockWriter.add returning true means the record was appended to the current block", "iterator Next fills the record passed to it"}
